@@ -723,6 +723,17 @@ func (c *Ctx) connectionDispatch() {
 		}
 		k := c.constValue("liteclient", d.magic)
 		calls := callsTo(f, c.qn("liteclient", d.handler))
+		if len(calls) == 0 {
+			// the handler is reached through an unexported helper of the reader loop (trackPong(p)): the helper's
+			// call site is where the packet kind has to be established
+			for _, ci := range callsIn(f) {
+				if cl, ok := ci.(*ssa.Call); ok {
+					if h := plainHelper(cl.Call.StaticCallee()); h != nil && len(c.callsToDeep(h, c.qn("liteclient", d.handler))) > 0 {
+						calls = append(calls, cl)
+					}
+				}
+			}
+		}
 		okv := len(calls) > 0 && k >= 0
 		for _, cl := range calls {
 			seen, eq := magicFact(f, cl.Block(), k)
